@@ -30,6 +30,8 @@ FLOORS = {"quick": {"deliveries_checked": 30000, "held_back_by_predecessor": 300
 # floors for the situations added with the later rounds of seeded changes (evidence that they were really exercised)
 FLOORS["quick"].update({'receivers_returning_pending_events': 20, 'same_object_reentries': 150})
 FLOORS["thorough"].update({'receivers_returning_pending_events': 100, 'same_object_reentries': 750})
+FLOORS["quick"].update({'huge_int_clock_cases': 12, 'negative_clock_cases': 60})
+FLOORS["thorough"].update({'huge_int_clock_cases': 60, 'negative_clock_cases': 300})
 
 
 def plan(tier):
